@@ -307,9 +307,23 @@ def _build(scan, seed, rng=None, val_ratio=0.0, val_mode=None):
                         val_ratio=val_ratio, val_mode=val_mode)
 
 
-def _kw(b, lt):
+# optimiser settings of the determinism / reset runs: pixelated object + probe only (their reset() makes NEW
+# parameters), and settings that also optimise the DATASET model (learned scan positions / descan shifts: its
+# reset() restores the parameters IN PLACE), with stateful optimisers (Adam moments, SGD momentum buffers)
+OPT_POOL = [
+    ("object+probe adam", None),
+    ("object+probe+dataset adam", {"object": {"type": "adam", "lr": 1e-2}, "probe": {"type": "adam", "lr": 1e-3},
+                                   "dataset": {"type": "adam", "lr": 2e-2}}),
+    ("sgd-momentum / adamw / dataset sgd-momentum",
+     {"object": {"type": "sgd", "lr": 5e-2, "momentum": 0.9}, "probe": {"type": "adamw", "lr": 1e-3},
+      "dataset": {"type": "sgd", "lr": 1e-2, "momentum": 0.9}}),
+    ("object adamw + dataset adamw", {"object": {"type": "adamw", "lr": 1e-2}, "dataset": {"type": "adamw", "lr": 1e-2}}),
+]
+
+
+def _kw(b, lt, opt=None):
     from . import toy_ptycho as tp
-    return dict(optimizer_params=tp.OPT, batch_size=b, constraints=tp.NO_ORTHO, loss_type=lt)
+    return dict(optimizer_params=tp.OPT if opt is None else opt, batch_size=b, constraints=tp.NO_ORTHO, loss_type=lt)
 
 
 def _hist(pt):
@@ -598,8 +612,10 @@ def determinism_checks(ctx):
             b = r.choice(bss)
             b2 = r.choice([x for x in bss if x != b])
             iters = 3
+            oname, opt = OPT_POOL[nvar % len(OPT_POOL)]
+            ctx.dist("determinism/optimisers=%s" % oname)
             rp = {"kind": "toy", "scan": list(scan), "batch": b, "batch2": b2, "seed": seed, "val_ratio": vr, "val_mode": vm,
-                  "loss_type": lt}
+                  "loss_type": lt, "optimisers": oname}
             nvar += 1
             ctx.dist("determinism/split=%s" % ("none" if vr == 0 else vm))
             ctx.dist("determinism/%s" % lt)
@@ -608,12 +624,12 @@ def determinism_checks(ctx):
                 return _build(scan, seed, rng=rng, val_ratio=vr, val_mode=vm)
 
             A = fresh()
-            A.reconstruct(num_iters=iters, **_kw(b, lt))
+            A.reconstruct(num_iters=iters, **_kw(b, lt, opt))
             la, va = _hist(A)
             stA = A.rng.bit_generator.state
             # (1) second object, same integer seed
             B = fresh()
-            B.reconstruct(num_iters=iters, **_kw(b, lt))
+            B.reconstruct(num_iters=iters, **_kw(b, lt, opt))
             lb, vb = _hist(B)
             ctx.count(("determinism", scan, b, vr, vm, lt), nontrivial=True)
             if _rel(la, lb) > TOL or _rel(va, vb) > TOL or len(va) != len(vb):
@@ -621,7 +637,7 @@ def determinism_checks(ctx):
                             "validation losses %s vs %s" % (la, lb, va, vb), rp, True))
             # (2) same seed handed over as a fresh numpy Generator
             G = fresh(rng=np.random.default_rng(seed))
-            G.reconstruct(num_iters=iters, **_kw(b, lt))
+            G.reconstruct(num_iters=iters, **_kw(b, lt, opt))
             lg, vg = _hist(G)
             ctx.count(("determinism-generator", scan, b, vr, vm, lt), nontrivial=True)
             if _rel(la, lg) > TOL or _rel(va, vg) > TOL:
@@ -629,11 +645,11 @@ def determinism_checks(ctx):
                             % (lg, la), rp, True))
             # (3) run on, then reset — several times in a row, with stray resets in between
             for k in range(2 if ctx.quick else 3):
-                B.reconstruct(num_iters=1 + k, **{**_kw(b, lt), "optimizer_params": None})
+                B.reconstruct(num_iters=1 + k, **{**_kw(b, lt, opt), "optimizer_params": None})
                 if k == 1:
                     B.reset_recon()
                     B.reset_recon()
-                B.reconstruct(num_iters=iters, reset=True, **_kw(b, lt))
+                B.reconstruct(num_iters=iters, reset=True, **_kw(b, lt, opt))
                 lc, vc = _hist(B)
                 ctx.count(("reset", scan, b, vr, vm, lt, k), nontrivial=True)
                 if len(lc) != iters or _rel(la, lc) > TOL or len(vc) != len(va) or _rel(va, vc) > TOL:
@@ -646,8 +662,8 @@ def determinism_checks(ctx):
                     break
             # (3b) reset WITHOUT handing the optimiser parameters over again: reset_recon itself has to rebuild
             # optimisers / schedulers from the stored parameters
-            B.reconstruct(num_iters=2, **{**_kw(b, lt), "optimizer_params": None})
-            B.reconstruct(num_iters=iters, reset=True, **{**_kw(b, lt), "optimizer_params": None})
+            B.reconstruct(num_iters=2, **{**_kw(b, lt, opt), "optimizer_params": None})
+            B.reconstruct(num_iters=iters, reset=True, **{**_kw(b, lt, opt), "optimizer_params": None})
             le, ve = _hist(B)
             ctx.count(("reset-keep-optimizer-params", scan, b, vr, vm, lt), nontrivial=True)
             if len(le) != iters or _rel(la, le) > TOL or len(ve) != len(va) or _rel(va, ve) > TOL:
@@ -655,9 +671,9 @@ def determinism_checks(ctx):
                             "%s, the fresh run from the same seed gave %s / %s" % (le, ve, la, va), rp, True))
             # (4) reconstruct(reset=True) with ANOTHER batch size == a fresh run with that batch size
             C = fresh()
-            C.reconstruct(num_iters=iters, **_kw(b2, lt))
+            C.reconstruct(num_iters=iters, **_kw(b2, lt, opt))
             lc2, vc2 = _hist(C)
-            B.reconstruct(num_iters=iters, reset=True, **_kw(b2, lt))
+            B.reconstruct(num_iters=iters, reset=True, **_kw(b2, lt, opt))
             ld, vd = _hist(B)
             ctx.count(("reset-batch-change", scan, b, b2, vr, vm, lt), nontrivial=True)
             if len(ld) != iters or _rel(lc2, ld) > TOL or len(vd) != len(vc2) or _rel(vc2, vd) > TOL:
